@@ -125,7 +125,7 @@ def int_types(doc_type, dest_kind, negative, codes):
         sx.reach("negative")
 
 
-def structure(doc_type, nmembers):
+def structure(doc_type, nmembers, commissioning="both"):
     od = C.odmod().ObjectDictionary()
     od.comments = "exported by the harness\nsecond line = with equals"
     di = od.device_information
@@ -138,8 +138,10 @@ def structure(doc_type, nmembers):
     di.allowed_baudrates.add(125000)
     di.allowed_baudrates.add(1000000)
     if doc_type == "dcf":
-        od.node_id = sx.fresh_int("nid", 1, 127)
-        od.bitrate = 250000
+        if commissioning in ("both", "node"):
+            od.node_id = sx.fresh_int("nid", 1, 127)
+        if commissioning in ("both", "rate"):
+            od.bitrate = 250000
     od.add_object(C.mkvar("Device type", 0x1000, 0, 0x07, "ro", default=sx.fresh_int("devtype", 0, 0xFFFFFFFF)))
     od.add_object(C.mkvar("Error register", 0x1001, 0, 0x05, "ro", default=0))
     members = [C.mkvar("Highest sub-index", 0x1018, 0, 0x05, "const", default=nmembers)]
@@ -174,7 +176,7 @@ def structure(doc_type, nmembers):
     sx.prove(od2.comments == od.comments, "comments", tag + "/comments")
     if doc_type == "dcf":
         sx.prove(_is(od2.node_id, od.node_id), "node id", tag + "/node-id")
-        sx.prove(od2.bitrate == 250000, "bit rate", tag + "/bitrate")
+        sx.prove(od2.bitrate == od.bitrate, "bit rate", tag + "/bitrate")
     sx.reach("structure-" + doc_type)
 
 
@@ -216,6 +218,8 @@ def jobs(tier):
         for n in ((1, 3) if tier == "quick" else (1, 2, 3, 8, 20)):
             out.append(dict(func="structure", params=dict(doc_type=doc, nmembers=n), weight=n))
         out.append(dict(func="destinations", params=dict(doc_type=doc)))
+    for comm in ("node", "rate", "none"):
+        out.append(dict(func="structure", params=dict(doc_type="dcf", nmembers=1, commissioning=comm)))
     return out
 
 
